@@ -394,10 +394,10 @@ func runShard(e Engine, tier string, seed uint64, k, n, total int, deadline time
 			res.KnownHits[kf.Text]++
 			continue
 		}
-		if seenClass[v.Class+"|"+v.Key] || len(res.Violations) >= maxViolationsPerShard {
+		if seenClass[v.Class] || len(res.Violations) >= maxViolationsPerShard {
 			continue
 		}
-		seenClass[v.Class+"|"+v.Key] = true
+		seenClass[v.Class] = true
 		mp, mv, shr := minimise(e, plan, v, 4000)
 		if kf := matchKnown(known, e.ID(), mv); kf != nil {
 			// the minimised witness is a listed finding; the unminimised one was
@@ -524,11 +524,11 @@ func runCheck(e Engine, tier string, seed uint64, workers int, runsOverride int,
 	var confirmed []foundViolation
 	seenV := map[string]bool{}
 	for _, v := range m.Violations {
-		if seenV[v.Class+"|"+v.Key] {
+		if seenV[v.Class] { // one witness per violation class is reported
 			os.Remove(v.Replay)
 			continue
 		}
-		seenV[v.Class+"|"+v.Key] = true
+		seenV[v.Class] = true
 		out, err := exec.Command(self, "replay", "-quiet", v.Replay).CombinedOutput()
 		code := 0
 		if ee, ok := err.(*exec.ExitError); ok {
